@@ -61,7 +61,12 @@ def m_box_drop(ex, a, m): return UNIT
 @model_rx(r'^<Box<dyn .*> as Fn.*>::call$|^<[A-Z] as Fn(Mut|Once)?<.*>>::call(_mut|_once)?$|^<.* as Fn(Mut|Once)?<.*>>::call(_mut|_once)?$')
 def m_fn_call(ex, a, m):
     f = a[0]; tup = a[1]
-    return ex.call_value(deref_all(f) if not (isinstance(f, Agg)) else f, [c.v for c in tup.fields])
+    fv = deref_all(f) if not isinstance(f, Agg) else f
+    if fv is None:
+        # a capture-less closure is a zero-sized value that MIR never initialises: its identity is in the callee's type
+        cm = re.search(r'\{closure@(' + SPAN + r')\}', ex.cur_callee or '')
+        if cm: fv = Agg('closure', cm.group(1), ex.cur_fn, [])
+    return ex.call_value(fv, [c.v for c in tup.fields])
 
 def clone_value(ex, v):
     """semantic Clone"""
@@ -181,8 +186,17 @@ def m_parse_int(ex, a, m):
     return err(Opaque('ParseIntError'))
 @model_rx(r'^(?:core::|alloc::|std::)?str::<impl str>::(contains|starts_with|ends_with)$')
 def m_str_pred(ex, a, m):
-    s0, p = conc(ex, as_str(a[0])), conc(ex, as_str(a[1]))
-    return Bool({'contains': p in s0, 'starts_with': s0.startswith(p), 'ends_with': s0.endswith(p)}[m.group(1)])
+    op = m.group(1); sv = as_str(a[0]); p = deref_all(a[1]) if isinstance(a[1], Ptr) else a[1]
+    if isinstance(p, Int) or (isinstance(p, StrV) and len(p.chars) == 1 and (sv.concrete() is None or p.concrete() is None)):
+        pc_ = p if isinstance(p, Int) else char_val(p.chars[0])
+        eq = lambda c: (char_val(c).bv == pc_.bv)
+        if not sv.chars: return Bool(False)
+        if op == 'starts_with': return Bool(z3.simplify(eq(sv.chars[0])))
+        if op == 'ends_with': return Bool(z3.simplify(eq(sv.chars[-1])))
+        return Bool(z3.simplify(z3.Or(*[eq(c) for c in sv.chars])))
+    if isinstance(p, Agg) and p.kind == 'closure' or isinstance(p, FnItem): raise Unsupported(f'str::{op} with a predicate')
+    s0, pt = conc(ex, sv), conc(ex, as_str(a[1]))
+    return Bool({'contains': pt in s0, 'starts_with': s0.startswith(pt), 'ends_with': s0.endswith(pt)}[op])
 @model('char::methods::<impl char>::is_digit')
 def m_is_digit(ex, a):
     c = a[0]; radix = pyint(ex, a[1])
@@ -1256,7 +1270,9 @@ def m_opt_more(ex, a, m):
         c = a[0].cell
         if not is_some: c.v = some(ex.call_value(a[1], []))
         return Ptr(c.v.fields[0], 'ref')
-    if op in ('iter', 'into_iter'): return IterV(iter([x] if is_some else []))
+    if op in ('iter', 'into_iter'):
+        byref = op == 'iter' or isinstance(a[0], Ptr)
+        return IterV(iter(([Ptr(v.fields[0], 'ref')] if byref else [x]) if is_some else []))
     if op == 'flatten': return x if is_some else none()
     if op == 'unwrap_unchecked': return x
 @model_rx(r'^(std::result::)?Result::(unwrap_or|unwrap_or_else|unwrap_or_default|is_ok|is_err|err|or_else|or|and|map_or|map_or_else|as_ref|ok_or|is_ok_and|is_err_and|unwrap_err|expect_err|iter|into_iter|inspect_err|inspect)$')
@@ -1794,3 +1810,25 @@ def m_number_clone(ex, a): return deref_all(a[0])
 def m_number_deserialize_any(ex, a, m):
     n = a[0]; k = {'pos': 'u64', 'neg': 'i64', 'float': 'f64'}[n.kind]
     return ex.call(f'<V as Visitor>::visit_{k}', [a[1], n.val])
+
+# ------------------------------------------------------------------------------------------ map Entry API
+class EntryV:
+    __slots__ = ('mp', 'key')
+    def __init__(s, mp, key): s.mp, s.key = mp, key
+@model_rx(r'^(BTreeMap|HashMap)::entry$')
+def m_map_entry(ex, a, m):
+    mp = _mapof(a[0]); return EntryV(mp, conc(ex, as_str(a[1]), 'map key'))
+@model_rx(r'^(?:std::collections::)?(?:hash_map|btree_map|hash_map::|btree_map::)?(?:::)?Entry::(or_insert|or_insert_with|or_insert_with_key|or_default|and_modify|key)$|^(?:[\w:]*::)?Entry::<.*>::(or_insert|or_insert_with|or_default|and_modify|key)$')
+def m_entry_ops(ex, a, m):
+    op = m.group(1) or m.group(2); e = a[0]
+    if not isinstance(e, EntryV): raise Unsupported('Entry value')
+    if op == 'key': return Ptr(Cell(rstr(e.key)), 'ref')
+    if op == 'and_modify':
+        if e.key in e.mp.d: ex.call_value(a[1], [Ptr(e.mp.d[e.key], 'ref')])
+        return e
+    if e.key not in e.mp.d:
+        if op == 'or_insert': e.mp.d[e.key] = Cell(a[1])
+        elif op == 'or_insert_with': e.mp.d[e.key] = Cell(ex.call_value(a[1], []))
+        elif op == 'or_insert_with_key': e.mp.d[e.key] = Cell(ex.call_value(a[1], [Ptr(Cell(rstr(e.key)), 'ref')]))
+        else: raise Unsupported('Entry::or_default (Default of an unknown type)')
+    return Ptr(e.mp.d[e.key], 'ref')
